@@ -1007,6 +1007,46 @@ class Emitter:
             return self.fc.lambda_caps['this']
         return 'self'
 
+    def std_trait_value(self, n):
+        """`std::is_base_of<Base, Derived>::value` (a static member of a std class that is not in the dump): evaluated from the
+        written expression and the class hierarchy of the index; anything else is a must-fire failure"""
+        try:
+            src = open(n['_file'], 'rb').read()
+            b = n['range']['begin']; e = n['range']['end']
+            text = src[b['offset']: e['offset'] + e.get('tokLen', 0)].decode(errors='replace')
+        except Exception as ex:
+            self.fail(n, 'std trait value: source text not available (%r)' % ex)
+        m = re.match(r'^\s*(?:std::)?is_base_of\s*<\s*([\w:]+)\s*,\s*([\w:]+)\s*>\s*::\s*value\s*$', text)
+        if not m: self.fail(n, 'std trait value not evaluable: ' + text[:80])
+        base_t = self.canon(parse_type(m.group(1)))
+        try:
+            der_t = self.canon(parse_type(m.group(2)))
+            if der_t.key() not in self.ix.records: raise Cxx2cError('x')
+        except Cxx2cError:
+            # a template parameter of the enclosing instantiation: its single type argument
+            targs = [c for c in self.fc.root.get('inner', []) if c.get('kind') == 'TemplateArgument' and 'type' in c]
+            if len(targs) != 1: self.fail(n, 'std trait value: cannot resolve ' + m.group(2))
+            der_t = self.canon(parse_type(targs[0]['type'].get('desugaredQualType') or targs[0]['type']['qualType']))
+        dk = der_t.key()
+        if dk not in self.ix.records:
+            # the written type omits defaulted template arguments: the unique specialisation that extends it
+            cand = [k for k in self.ix.records if k.startswith(dk[:-1] + ', ')]
+            dfl = self.ix.template_defaults.get(der_t.name, {})
+            if len(cand) != 1 and dfl:
+                full = T('named', der_t.name, list(der_t.args) + [self.canon(parse_type(dfl[i])) for i in range(len(der_t.args), max(dfl) + 1) if i in dfl])
+                cand = [full.key()] if full.key() in self.ix.records else []
+            if len(cand) != 1: self.fail(n, 'std trait value: unknown class ' + dk)
+            dk = cand[0]
+        def bases(key, seen):
+            rec = self.ix.records.get(key)
+            if rec is None or key in seen: return
+            seen.add(key)
+            for bb in rec.get('bases', []):
+                bk = self.canon(parse_type(bb['type'].get('desugaredQualType') or bb['type']['qualType'])).key()
+                bases(bk, seen)
+        seen = set(); bases(dk, seen)
+        return '1 /*is_base_of*/' if base_t.key() in seen else '0 /*is_base_of*/'
+
     def e_IntegerLiteral(self, n):
         t = parse_type(self.qtype(n)).name
         suf = {'unsigned int': 'U', 'long': 'L', 'unsigned long': 'UL', 'long long': 'LL', 'unsigned long long': 'ULL'}.get(t, '')
@@ -1042,6 +1082,8 @@ class Emitter:
                 return self.fc.lambda_caps[did]
             name = self.fc.renames.get(did, rd.get('name') or '__unnamed_%s' % did[-4:])
             d = self.ix.by_id.get(did)
+            if d is None and rk == 'VarDecl' and rd.get('name') == 'value' and n.get('nonOdrUseReason') == 'constant':
+                return self.std_trait_value(n)
             dt = None
             if d is not None and 'type' in d:
                 dt = self.canon(parse_type(d['type'].get('desugaredQualType') or d['type']['qualType']))
